@@ -1,6 +1,6 @@
 """C04 configuration for ./check (keys: see checks/propcfg.py)."""
 CFG = {
-    "modules": ["VaxisModel.Props.C04", "VaxisModel.Props.C04Exit", "VaxisModel.Props.C04Prior", "VaxisModel.Props.C04Start", "VaxisModel.Props.C04Lex", "VaxisModel.Props.C04AllGuards", "VaxisModel.Witness.F404"],
+    "modules": ["VaxisModel.Props.C04", "VaxisModel.Props.C04Exit", "VaxisModel.Props.C04Prior", "VaxisModel.Props.C04Start", "VaxisModel.Props.C04Lex", "VaxisModel.Props.C04AllGuards", "VaxisModel.Witness.F404", "VaxisModel.Witness.F406"],
     "extractors": ["C04", "C07", "C18", "C11", "C01", "C10"],
     "drivers": ["C04"],
     "stateful": True,
@@ -40,7 +40,7 @@ CFG = {
                   "(literal_restored_iff, prior_set_mode_ends_reset say what the literal reading would need). Exit paths (decided: Close, the eight signals setupSignals registers — not SIGHUP —, a panic of the input goroutine; "
                   "not a panic of the application's goroutine): every_exit_restores_at_every_point (each path from every point of every session) + exit_path_completes (every schedule); on the real code also a kill signal while suspended "
                   "(served at Resume, serialised by suspendMu), before the first frame, and MID-FRAME by a forced schedule (gateConsole.Reset) — the latter is finding F404 (recorded: the application's frame follows the restore sequence; "
-                  "root cause C10 F410; Witness/F404). Failing paths (Props/C04Start): New's error exits are regenerated (Gen.Modes.newSequence); finding F405 (a New that failed after the terminal was set up returned (nil, err) and left everything on) is repaired in /repo 8985b23; "
+                  "root cause C10 F410; Witness/F404); a real SIGTERM DURING New (before setupSignals, the last step of New) kills the process with mode 2048 left set: finding F406 (recorded; sessions `closeby sigstartup`, Witness/F406). Failing paths (Props/C04Start): New's error exits are regenerated (Gen.Modes.newSequence); finding F405 (a New that failed after the terminal was set up returned (nil, err) and left everything on) is repaired in /repo 8985b23; "
                   "failed_startup_restores (every assignment, all values: what a failing New has written restores the terminal), early_exits_write_nothing, resume_failure_writes_nothing (the I/O-error guard of Resume true: nothing written, still suspended); sessions `startupfail` on a console whose size cannot be read. "
                   "Still assumed of the prior terminal (PriorOK): it implements what it advertises, answers the two queries with its current values, no hyperlink open. "
                   "The cursor style the terminal reports (0 if it does not answer) and the id of its "
